@@ -17,7 +17,22 @@ fn limbs64(v: &BigU) -> usize {
 }
 
 fn gen_limbs(rng: &Rng, n: usize, normalized: bool) -> Vec<u64> {
-    let mut v: Vec<u64> = match rng.below(8) {
+    let mut v: Vec<u64> = match rng.below(9) {
+        8 => {
+            // two islands: a few low limbs, a long run of zero limbs, a few high limbs (b * 2^(64k) + a)
+            let mut v = vec![0u64; n];
+            if n > 0 {
+                let lo = rng.range(1, 2).min(n as i64) as usize;
+                let hi = rng.range(1, 2).min(n as i64) as usize;
+                for x in v.iter_mut().take(lo) {
+                    *x = if rng.chance(1, 3) { u64::MAX } else { rng.next() | 1 };
+                }
+                for x in v.iter_mut().skip(n - hi) {
+                    *x = if rng.chance(1, 3) { 1 } else { rng.next() | 1 };
+                }
+            }
+            v
+        }
         0 => vec![u64::MAX; n],
         1 => {
             let mut v = vec![0u64; n];
@@ -332,8 +347,27 @@ fn check_inplace(ctx: &mut Ctx, op: &Op, want: Want, got: Got, _panic_is_failure
     }
 }
 
+/// Fill 24 KiB of stack below the operation with a pattern, so that a limb that is counted in `len` but was never
+/// written shows as a wrong value natively as well (under Miri / valgrind it is a report anyway).
+#[inline(never)]
+fn poison_stack(pattern: u8) -> u64 {
+    let mut buf = [0u8; 24 * 1024];
+    for b in buf.iter_mut() {
+        unsafe { std::ptr::write_volatile(b, pattern) };
+    }
+    let mut acc = 0u64;
+    for i in (0..buf.len()).step_by(1024) {
+        acc = acc.wrapping_add(unsafe { std::ptr::read_volatile(&buf[i]) } as u64);
+    }
+    acc
+}
+
 fn run_op(ctx: &mut Ctx, op: &Op) {
     let route = route_of(op);
+    if ctx.rep.evals % 4 == 0 {
+        std::hint::black_box(poison_stack(if ctx.rep.evals % 8 == 0 { 0xff } else { 0xa5 }));
+        ctx.rep.count("stack_poisoned_before_operation");
+    }
     ROUTE.with(|r| r.set(route));
     MIN_CAP.with(|c| c.set(usize::MAX));
     ctx.rep.count(["operands.by_try_from", "operands.by_clone", "operands.by_new_extend"][route as usize]);
